@@ -229,6 +229,41 @@ class Settings(dict):
     pass
 
 
+class AttrDict(dict):
+    """The attribute-dict idiom: the instance dictionary IS the mapping."""
+
+    def __init__(self, *a, **k):
+        dict.__init__(self, *a, **k)
+        self.__dict__ = self
+
+
+class Record(dict):
+    """Keys readable as attributes; a missing one is a KeyError (not an AttributeError)."""
+    __slots__ = ()
+
+    def __getattr__(self, name):
+        return self[name]
+
+
+JOURNAL = []
+
+
+class Journal(list):
+    """A list that records which of its attributes were asked for."""
+
+    def __getattribute__(self, name):
+        JOURNAL.append(name)
+        return list.__getattribute__(self, name)
+
+
+class SlotBasket(list):
+    __slots__ = ('owner',)
+
+
+class SlotFailure(Exception):
+    __slots__ = ('code',)
+
+
 class traceback:
     def __init__(self, v):
         self.v = v
@@ -281,6 +316,14 @@ def typed(n):
     tb = traceback('x')
     mo = module('y')
     it = list_iterator('z')
+    ad = AttrDict(a=1, b=2)
+    rec = Record(a=1, b=2)
+    jr = Journal([1, 2])
+    del JOURNAL[:]
+    sb = SlotBasket([1, 2])
+    sb.owner = 'ann'
+    sf = SlotFailure('boom')
+    sf.code = 7
     return n  # TP:typed
 '''
 
@@ -322,7 +365,11 @@ def typed_objects_leg(c, wd):
                                     # an OrderedDict is shown in ITS order (an LRU cache after a hit)
                                     ('recent', ['b', 'c', 'a']),
                                     # application classes that are merely NAMED like types without children
-                                    ('tb', ['v']), ('mo', ['v']), ('it', ['v'])):
+                                    ('tb', ['v']), ('mo', ['v']), ('it', ['v']),
+                                    # the attribute-dict idiom (each entry once), keys readable as attributes, slots on
+                                    # classes derived from containers and exceptions
+                                    ('ad', ['a', 'b']), ('rec', ['a', 'b']), ('jr', ['0', '1']), ('sb', ['0', '1', 'owner']),
+                                    ('sf', ['0', 'code'])):
                 v = by.get(name)
                 kids = [ch.name for ch in v.children] if v is not None else None
                 if not bad and kids != kids_want:
@@ -331,6 +378,8 @@ def typed_objects_leg(c, wd):
                 v = by.get(name)
                 if not bad and (v is None or v.value != 'tb-text'):
                     bad = 'local %s (an application class named %s) shows the text %r' % (name, v.type if v else None, v.value if v else None)
+            if not bad and mod.JOURNAL:
+                bad = 'looking at local jr ran its __getattribute__ (an application method) for %s' % sorted(set(mod.JOURNAL))
             # a number with more digits than the interpreter converts to decimal text by default (str() raises for it):
             # still a number whose VALUE is shown - in decimal or in hexadecimal, cut to the string limit
             v = by.get('huge')
